@@ -384,7 +384,7 @@ def concat(*collections):
     return itertools.chain(*collections)
 
 
-@specs.parameter('collection', yaqltypes.Iterator())
+@specs.parameter('collection', yaqltypes.Iterable())
 @specs.name('len')
 @specs.extension_method
 def count_(collection):
